@@ -88,7 +88,9 @@ class BMHooks(Hooks):
             return None
         if isinstance(term, Sym):
             return True
-        if isinstance(term, App) and term.op in ('micheline', 'parsed'):
+        if isinstance(term, App) and term.op == 'micheline':
+            return None  # the Micheline rendering of a value can be the empty sequence [] (an empty list / set / map): falsy
+        if isinstance(term, App) and term.op == 'parsed':
             return True
         if isinstance(term, App) and term.op == 'is' and isinstance(term.args[0], (Sym, App)) and (term.args[1] is None or isinstance(term.args[1], Obj)):
             return False  # a stored / parsed value is neither None nor the Undefined marker
@@ -222,9 +224,19 @@ def run(repo: Repo, chk: Check) -> None:
         return out, back
 
     res = Interp(repo, BMHooks(repo, None), max_depth=6).run_paths(round_trip)
-    ok = len(res) == 1 and res[0].outcome == 'return'
+    ok = bool(res) and all(p.outcome == 'return' for p in res)
     rec = None
+    for p0 in (res if ok else []):
+        out, back = p0.value
+        bi = norm_items(back.fields['items'])
+        br = sorted(vrepr(x) for x in back.fields['removed_keys'])
+        if not (bi == [('parsed(micheline($k))', 'parsed(micheline($v))')] and br == ['parsed(micheline($rk))']):
+            ok = False
+            res = [p0]  # report this path
+            break
     if ok:
+        res = res[:1]
+    if len(res) >= 1 and res[0].outcome == 'return':
         out, back = res[0].value
         rec = [e for e in res[0].events if isinstance(e, tuple) and e[0] == 'record'][0][1]
         bi = norm_items(back.fields['items'])
@@ -267,6 +279,55 @@ def run(repo: Repo, chk: Check) -> None:
     okd = len(res) == 1 and res[0].outcome == 'return' and vrepr(res[0].value.fields.get('context')) == '$context' \
         and norm_items(res[0].value.fields['items']) == [('$k', '$v')] and [vrepr(x) for x in res[0].value.fields['removed_keys']] == ['$rk']
     chk.ob('R-PATH', f'{BM}.duplicate', okd, 'duplicate copies entries, removals, id and context', dup.loc, what='DUP of a big_map loses entries, removals or the context')
+
+    # ---- 5 the chain layer: which on-chain big_map a lookup reads ---------------------------------------------------------------------------
+    # registry as attach_context builds it: a storage big_map registered under its own id, a copy registered under a fresh negative id that
+    # points at the positive source id; a fresh big_map (negative id, not registered) has no chain content.
+    chk.set_clause('C15.5')
+    CTX = 'pytezos.context.impl.ExecutionContext'
+    gv = repo.func(f'{CTX}.get_big_map_value')
+
+    class ChainHooks(Hooks):
+        def inline(self, it, fi):
+            return fi.qualname == gv.qualname
+
+        def attr(self, it, obj, name, node):
+            if isinstance(obj, Sym) and obj.name == 'shell':
+                return App('shell-path', name)
+            if isinstance(obj, App) and obj.op == 'shell-path':
+                return App('shell-path', *obj.args, name)
+            return NotImplemented
+
+        def subscript(self, it, obj, idx, node):
+            if isinstance(obj, App) and obj.op == 'shell-path':
+                return App('shell-path', *obj.args, ('[]', idx if isinstance(idx, int) else vrepr(idx)))
+            return NotImplemented
+
+        def call(self, it, callee, args, kwargs, node):
+            if isinstance(callee, App) and callee.op == 'shell-path':
+                it.event('chain-query', callee.args)
+                return Sym('chain-value')
+            return NotImplemented
+
+        def truth(self, it, term):
+            if isinstance(term, App) and term.op == 'is' and isinstance(term.args[0], Sym) and term.args[0].name == 'shell':
+                return False  # a node is attached
+            return None
+
+    cases = [('storage big_map 5', 5, 5), ('copy -1 of on-chain big_map 7', -1, 7), ('fresh big_map -2 (never registered)', -2, None), ('unknown id 9', 9, None)]
+    for label, ptr, src in cases:
+        ctx = Obj(CTX, {'tzt': False, 'big_maps': {5: (5, False), -1: (7, True)}, 'shell': Sym('shell'), 'block_id': 'head'})
+        res = Interp(repo, ChainHooks(), max_depth=2).run_method(gv, lambda ctx=ctx, ptr=ptr: (ctx, [ptr, Sym('key_hash', 'str')], {}))
+        queried = sorted({a[1] for p in res for e in p.events if isinstance(e, tuple) and e[0] == 'chain-query' for a in e[1] if isinstance(a, tuple) and a[0] == '[]' and isinstance(a[1], int)})
+        outs = sorted({vrepr(p.value) if p.outcome == 'return' else 'raise ' + p.value.cls for p in res})
+        if src is None:
+            ok = not queried and outs == ['None']
+        else:
+            ok = queried == [src] and outs == ['$chain-value']
+        chk.ob('R-FLOW', gv.qualname, ok, f'{label}: ' + (f'reads on-chain big_map {src}' if src is not None else 'has no on-chain content'), gv.loc,
+               {'queried_ids': queried, 'outcomes': outs},
+               what=f'get_big_map_value for {label}: queried on-chain ids {queried}, result {outs}; '
+                    + (f'the entries of on-chain big_map {src} must be visible through it' if src is not None else 'nothing may be read from the chain'))
 
 
 class _GKH(BMHooks):
